@@ -17,9 +17,17 @@ CVC5_TIMEOUT_S = int(os.environ.get('PV_CVC5_TIMEOUT_S', '20'))
 STATS = dict(queries=0, z3_time=0.0, cvc5_time=0.0, cvc5_queries=0)
 
 
+RLIMIT_PER_MS = int(os.environ.get('PV_Z3_RLIMIT_PER_MS', '12000'))
+
+
 def _mk_solver(timeout_ms):
     s = z3.Solver()
     s.set('timeout', timeout_ms)
+    # Deterministic backstop: z3's wall-clock timer is a helper thread, and it has been seen not to fire in heavily
+    # loaded forked workers (a check then spins for ever).  The resource limit is counted inside the solver, needs no
+    # thread, and is about three times the time limit on this machine (~4M units per second), so it never decides a
+    # query the timeout would not have stopped first.
+    s.set('rlimit', max(1, timeout_ms) * RLIMIT_PER_MS)
     return s
 
 
